@@ -719,8 +719,9 @@ def main(check, check_file):
             if exit_code == EXIT_OK:
                 exit_code = EXIT_HARNESS
     for f in findings:
-        if f.get("property") == check.prop and f.get("status") == "known" and stats["known"].get(f["id"]):
-            print(f"KNOWN-FINDING: property={check.prop} {f['id']}: {f['what']} (observed {stats['known'][f['id']]}x)")
+        if f.get("property") == check.prop and f.get("status") == "known":
+            print(f"KNOWN-FINDING: property={check.prop} {f['id']}: {f['what']} "
+                  f"(observed {stats['known'].get(f['id'], 0)}x in this run)")
     wall = time.time() - t0
     if stats["evaluations"] == 0 and exit_code == EXIT_OK:
         print(f"HARNESS-ERROR property={check.prop} nothing was evaluated")
